@@ -46,6 +46,7 @@ def use_line(use, prog):
         'exit-code-from': 'exit-code -from %s\n == 0' % prog,
         'stdout-from': 'stdout -from %s\n ! is-empty' % prog,
         'env-from-stdout': 'env VERIF_P = -stdout-from %s' % prog,
+        'stdout-from-transformed': 'stdout -from % echo x\n  -transformed-by run ' + prog + '\n  ! is-empty',
     }[use]
 
 
